@@ -36,7 +36,11 @@ import (
 
 type Case28 struct {
 	tlsh.Case
-	Two bool `json:"two"`
+	Two  bool     `json:"two"`
+	SCTs []string `json:"scts"` // classes of the SCTs the server staples into its ServerHello: good1 good2 good3 trunc badver short
+	Skip bool     `json:"skip"` // the client runs with InsecureSkipVerify
+	RwH  int      `json:"rwh"`  // scripted-peer rewrite of the TLS 1.2 ServerKeyExchange SignatureAndHashAlgorithm in flight:
+	RwS  int      `json:"rws"`  // hash byte / signature byte (0/0 = untouched)
 }
 
 type Rec struct {
@@ -48,6 +52,11 @@ type Rec struct {
 	Vers   int            `json:"vers"`
 	Suite  int            `json:"suite"`
 	Res    bool           `json:"resumed"`
+	Rw     bool           `json:"rewritten"` // the ServerKeyExchange algorithm bytes were rewritten in flight
+	SCTs   []string       `json:"scts"`
+	Skip   bool           `json:"skip"`
+	RwH    int            `json:"rwh"`
+	RwS    int            `json:"rws"`
 	Wire   map[string]any `json:"wire"`
 	Log    map[string]any `json:"log"`
 	JSONOK bool           `json:"json_ok"` // the log marshals to JSON and the JSON agrees with the structure on the probed fields
@@ -213,6 +222,60 @@ func skxDigest(vers int, kind string, hashID, sigID int, isECDSAKey bool, cr, sr
 	return hx(a[:]) + hx(b[:])
 }
 
+// sctBytes builds the SCT of a class.
+func sctBytes(class string) []byte {
+	good := func(n int) []byte {
+		id := sha256.Sum256([]byte(fmt.Sprintf("verif log %d", n)))
+		b := []byte{0}
+		b = append(b, id[:]...)
+		ts := uint64(1600000000000 + n)
+		for i := 7; i >= 0; i-- {
+			b = append(b, byte(ts>>(8*uint(i))))
+		}
+		b = append(b, 0, 0)       // no extensions
+		b = append(b, 4, 3, 0, 8) // sha256, ecdsa, 8 signature bytes
+		return append(b, id[:8]...)
+	}
+	switch class {
+	case "good1":
+		return good(1)
+	case "good2":
+		return good(2)
+	case "good3":
+		return good(3)
+	case "trunc":
+		return good(4)[:20]
+	case "badver":
+		b := good(5)
+		b[0] = 1
+		return b
+	case "short":
+		return []byte{0}
+	}
+	obs.Fatal("unknown SCT class %q", class)
+	return nil
+}
+
+// sctParse is the independent reading of one SCT (RFC 6962 3.2): "" if it is not a complete v1 SCT.
+func sctParse(b []byte) string {
+	if len(b) < 1+32+8+2 || b[0] != 0 {
+		return ""
+	}
+	logID, ts := b[1:33], b[33:41]
+	rest := b[41:]
+	el := int(rest[0])<<8 | int(rest[1])
+	if len(rest) < 2+el+4 {
+		return ""
+	}
+	ext := rest[2 : 2+el]
+	rest = rest[2+el:]
+	h, g, sl := int(rest[0]), int(rest[1]), int(rest[2])<<8|int(rest[3])
+	if len(rest) < 4+sl {
+		return ""
+	}
+	return fmt.Sprintf("v1|%s|%s|%s|%d|%d|%s", hx(logID), new(big.Int).SetBytes(ts).String(), hx(ext), h, g, hx(rest[4:4+sl]))
+}
+
 // project builds the two flat records of one client connection.
 func project(r *tlsh.Result, srvKeylog *keylog, serverKey string) (wire, lg map[string]any, jsonOK bool) {
 	wire, lg = map[string]any{}, map[string]any{}
@@ -373,6 +436,18 @@ func project(r *tlsh.Result, srvKeylog *keylog, serverKey string) (wire, lg map[
 		if h.HasExts {
 			wire["sh_ext_ids"] = ids
 		}
+		if d, ok := h.Ext(18); ok && len(d) >= 2 {
+			list := [][]string{}
+			for p := d[2:]; len(p) >= 2; {
+				l := int(p[0])<<8 | int(p[1])
+				if len(p) < 2+l {
+					break
+				}
+				list = append(list, []string{blob(p[2 : 2+l]), sctParse(p[2 : 2+l])})
+				p = p[2+l:]
+			}
+			wire["sh_scts"] = list
+		}
 		suite = h.Suites[0]
 		alpn := ""
 		if d, ok := h.Ext(16); ok && len(d) >= 3 {
@@ -413,6 +488,18 @@ func project(r *tlsh.Result, srvKeylog *keylog, serverKey string) (wire, lg map[
 		}
 		if s.ExtensionIdentifiers != nil {
 			lg["sh_ext_ids"] = ints(s.ExtensionIdentifiers)
+		}
+		if len(s.SignedCertificateTimestamps) > 0 {
+			list := [][]string{}
+			for _, x := range s.SignedCertificateTimestamps {
+				parsed := ""
+				if p := x.Parsed; p != nil {
+					parsed = fmt.Sprintf("v%d|%s|%d|%s|%d|%d|%s", int(p.SCTVersion)+1, hx(p.LogID[:]), p.Timestamp, hx(p.Extensions),
+						int(p.Signature.HashAlgorithm), int(p.Signature.SignatureAlgorithm), hx(p.Signature.Signature))
+				}
+				list = append(list, []string{blob(x.Raw), parsed})
+			}
+			lg["sh_scts"] = list
 		}
 	}
 
@@ -486,9 +573,13 @@ func project(r *tlsh.Result, srvKeylog *keylog, serverKey string) (wire, lg map[
 			}
 			lg["skx_dh_p"], lg["skx_dh_g"], lg["skx_dh_ys"] = t(d.Prime), t(d.Generator), t(d.ServerPublic)
 		}
-		lg["skx_digest"] = hx(k.Digest)
+		if len(k.Digest) > 0 { // empty when the client gave up on the signature before hashing
+			lg["skx_digest"] = hx(k.Digest)
+		}
 		if sg := k.Signature; sg != nil {
-			lg["skx_sig_raw"] = blob(sg.Raw)
+			if len(sg.Raw) > 0 {
+				lg["skx_sig_raw"] = blob(sg.Raw)
+			}
 			lg["skx_sig_tls_version"] = int(sg.Version)
 			if sg.SigHashExtension != nil {
 				b, _ := json.Marshal(sg.SigHashExtension)
@@ -631,23 +722,69 @@ func project(r *tlsh.Result, srvKeylog *keylog, serverKey string) (wire, lg map[
 
 func runCase(cs Case28) []Rec {
 	cs.C, cs.S = cs.C.NonNil(), cs.S.NonNil()
-	b, err := tlsh.Build(cs.Case, true)
+	if cs.SCTs == nil {
+		cs.SCTs = []string{}
+	}
+	b, err := tlsh.Build(cs.Case, !cs.Skip)
 	if err != nil {
 		obs.Fatal("case %d: %v", cs.ID, err)
 	}
 	kl := &keylog{}
 	b.Server.KeyLogWriter = kl
+	for _, c := range cs.SCTs {
+		b.Server.Certificates[0].SignedCertificateTimestamps = append(b.Server.Certificates[0].SignedCertificateTimestamps, sctBytes(c))
+	}
+	// scripted peer: the genuine server's ServerKeyExchange with the TLS 1.2 SignatureAndHashAlgorithm
+	// bytes rewritten in flight (a zcrypto server never names an algorithm other than the suite's)
+	rewritten := false
+	var filter tlsh.Filter
+	if cs.RwH != 0 || cs.RwS != 0 {
+		var mu sync.Mutex
+		seenCCS := false
+		filter = func(dir, idx int, rec []byte) *tlsh.Action {
+			mu.Lock()
+			defer mu.Unlock()
+			if dir != tlsh.S2C || seenCCS || len(rec) < 10 {
+				return nil
+			}
+			if rec[0] == tlsh.RecCCS {
+				seenCCS = true
+				return nil
+			}
+			if rec[0] != tlsh.RecHandshake || rec[5] != 12 || rec[1] != 3 || rec[2] != 3 {
+				return nil
+			}
+			body := rec[9:]
+			var off int
+			switch {
+			case len(body) > 4 && body[0] == 3: // ECDHE: curve_type, curve, point
+				off = 4 + int(body[3])
+			default: // DHE: p, g, Ys
+				off = 0
+				for k := 0; k < 3 && off+2 <= len(body); k++ {
+					off += 2 + (int(body[off])<<8 | int(body[off+1]))
+				}
+			}
+			if off+2 > len(body) {
+				return nil
+			}
+			out := append([]byte(nil), rec...)
+			out[9+off], out[9+off+1] = byte(cs.RwH), byte(cs.RwS)
+			rewritten = true
+			return &tlsh.Action{Deliver: [][]byte{out}}
+		}
+	}
 	var out []Rec
 	n := 1
 	if cs.Two {
 		n = 2
 	}
 	for k := 0; k < n; k++ {
-		r := tlsh.Run(b.Client, b.Server, tlsh.RunOpt{KeepOpen: true})
+		r := tlsh.Run(b.Client, b.Server, tlsh.RunOpt{KeepOpen: true, Filter: filter})
 		w, l, jok := project(r, kl, cs.S.Key)
 		o := tlsh.Observe(r)
 		out = append(out, Rec{ID: cs.ID, C: cs.C, S: cs.S, Second: k == 1, Done: r.C.Done && r.S.Done, Vers: o.CVers,
-			Suite: o.CSuite, Res: o.CRes, Wire: w, Log: l, JSONOK: jok, CErr: o.CErr})
+			Suite: o.CSuite, Res: o.CRes, Rw: rewritten, SCTs: cs.SCTs, Skip: cs.Skip, RwH: cs.RwH, RwS: cs.RwS, Wire: w, Log: l, JSONOK: jok, CErr: o.CErr})
 		r.C.Conn.Close()
 		r.S.Conn.Close()
 		r.Link.CloseAll()
@@ -665,6 +802,18 @@ func randomCase(r *rand.Rand, id int) Case28 {
 		cs.S.Min, cs.S.Max = 10, 13
 	}
 	cs.Two = r.Intn(2) == 0
+	cs.SCTs = []string{}
+	if r.Intn(3) == 0 {
+		classes := []string{"good1", "good2", "good3", "trunc", "badver", "short"}
+		for k := r.Intn(4); k > 0; k-- {
+			cs.SCTs = append(cs.SCTs, classes[r.Intn(len(classes))])
+		}
+	}
+	cs.Skip = r.Intn(4) == 0
+	if cs.Skip && r.Intn(2) == 0 {
+		cs.RwH, cs.RwS = []int{1, 2, 4, 5, 6, 9}[r.Intn(6)], []int{1, 2, 3, 9}[r.Intn(4)]
+		cs.Two = false
+	}
 	return cs
 }
 
